@@ -20,7 +20,7 @@ use jj_lib::repo_path::RepoPathBuf;
 use jjv::Rng;
 use jjv::coq;
 
-const NAMES: &[&str] = &["a", "b", "ab", "c"];
+const NAMES: &[&str] = &["a", "b", "ab", "c", "A"];
 /// Globs as the fileset layer can produce them (first component has a glob character).
 const GLOBS: &[&str] = &[
     "*", "?", "a*", "*b", "**", "*/c", "{a,b}", "{,a}", "[ab]", "**/c", "*/*", "{a,ab}/**",
